@@ -35,6 +35,9 @@ class SimpleCookieJar:
 
             for v in simple_cookie.values():
                 if domain := v.get("domain"):
+                    if not domain.strip("."):
+                        # "Domain=." names no domain
+                        continue
                     if not domain.startswith("."):
                         domain = f".{domain}"
                     domain = domain.lower()
@@ -52,6 +55,8 @@ class SimpleCookieJar:
 
             for v in simple_cookie.values():
                 if domain := v.get("domain"):
+                    if not domain.strip("."):
+                        continue
                     if not domain.startswith("."):
                         domain = f".{domain}"
                     self.jar[domain.lower()] = simple_cookie
